@@ -18,7 +18,8 @@ RULE = ("cases = operation histories (insert/overwrite/operator[]/find/has/get/r
         "contents built in different orders / table sizes / with insert+remove noise, then ==; `raw` ops print the bucket count and "
         "the unsorted enumeration of hash containers on both sides; `cv` lines build a source map and run a converting constructor "
         "(int -> String keys 9/10/100, negatives, random 32-bit; double q/4 -> int keys that merge; same-key-type Map and Dic), a few "
-        "malformed (odd token count, unknown variant); "
+        "malformed (odd token count, unknown variant); s << s (`addself`) at every growth threshold and on over-full sets (1..8 buckets, "
+        "5..600 members inserted while a second handle suppressed growth, handle then dropped) with `raw`/`walk` before and after; "
         "non-trivial = distinct case with at least one mutation and one observation")
 TRUSTED = ["tools/props/c02.py translate(): regex extraction of the hash-table constants (String hash multiplier, HashMap() size, "
            "rehash fill fraction / factor / slot limit, nextPoT shifts) and shape checks of hash(int), binOf, ASL_HMAP_SKIP from "
@@ -1049,7 +1050,8 @@ LEVEL_TEXT = ("Proved in Lean 4, for ALL inputs and histories, about the executa
               "0 <= e <= 30, after every history (hashmap_size_pow2_every_history), length() <= (buckets+2)*7/8 unless capped for every "
               "unshared history (hashmap_load_bound_unshared), and the Enumerators of HashMap/HashDic/Set/Map/Dic, transcribed with "
               "checked reads, stay in bounds and visit every stored key exactly once in the modelled order after every history "
-              "(hashmap_enumerator_every_history, set_enumerator_every_history, map_enumerator_every_history). G: the hash-table constants "
+              "(hashmap_enumerator_every_history, set_enumerator_every_history, map_enumerator_every_history); (7) s << s as coded, the "
+              "Enumerator alive across the rehash() of its own body: self_merge_interleaved_partial / _no_growth. G: the hash-table constants "
               "(String hash multiplier, default size, growth rule, nextPoT shifts) are regenerated from HashMap.h on every run and the "
               "obligations gen_constants_ok / nextPoT_is_next_power_of_two are re-proved. K: histories over 6 container types (colliding "
               "keys, growth across 225 and 1793 entries, tables from 1 bucket up, sizes 0..6 probed exhaustively) under ASan/LSan compare "
@@ -1082,8 +1084,15 @@ LEVEL_NOTE = ("The loop/branch structure of the models is tied to the code by K 
               "dereference null and yield exactly the enumeration / the sorted array after every history "
               "(hashmap_enumerator(_every_history), set_enumerator_every_history, map_enumerator_every_history, "
               "enumerator_needs_a_bucket); tied by K ops `raw`/`dump` (foreach macros) and `walk` (explicit Enumerator, Set::array()) as "
-              "the exact sequence. Still by K only: mutation DURING an enumeration (s << s around the growth threshold runs rehash inside the enumeration of s itself; exercised "
-              "under ASan, modelled as enumerate-then-insert, equal by K), and the Enumerator's pointer-level state (a node pointer is a list suffix). Equality/merge theorems for hash containers assume both tables "
+              "the exact sequence. Mutation DURING an enumeration: s << s is modelled as coded (HashMap.selfMerge: one Enumerator - array reference, index, end fixed at "
+              "construction, node pointer as key - stays alive while its body (*this)[x]=1 may rehash the enumerated table; the driver's set "
+              "`addself` runs it) and proved for every well-formed table within the intended load (self_merge_interleaved_partial: growth "
+              "inside the enumeration included; in bounds, no null/dangling node, terminates, result = rehash() of the table, same members) "
+              "and for every table not due to grow (self_merge_interleaved_no_growth); self_merge_interleaved_full (over-full tables, filled "
+              "while a second handle suppressed growth, growing several times in one enumeration) is a def, validated by K only (generator "
+              "group 8). The hypothesis `all values are 1` of these theorems is true of every Set by construction but is not itself a "
+              "history theorem. Map::add(self) is still modelled as Map.add a a (K only). "
+              "Equality/merge theorems for hash containers assume both tables "
               "use the same hash function (true for one key type). Known finding index-assign-from-own-element: `m[k] = m[j]` on an "
               "ordered Map/Dic with k or j absent reads the right-hand reference after the left-hand operator[] has shifted / "
               "reallocated the flat array (wrong value or use after free); not repairable inside operator[]; the generator excludes "
